@@ -684,7 +684,7 @@ Lemma Pq_new_rel_fold : forall o e ics acc, Pq acc -> Pq (fold_left (new_rel_ste
 Proof. intros. apply Pq_fold_left; auto. intros. apply Pq_new_rel_step; auto. Qed.
 
 Lemma Pq_flushobj_op : forall (s : sess) (h : nat), Pq s -> Pqp (flushobj_op sch s h).
-Proof. intros. unfold flushobj_op. pqauto. Qed.
+Proof. intros. unfold flushobj_op, flushobj_go. pqauto. Qed.
 Hint Resolve Pq_flushobj_op : pq.
 
 Lemma Pq_keep_declined : forall s0 s1, Pq s1 -> Pq (keep_declined s0 s1).
